@@ -151,10 +151,16 @@ class InterestTreeNode:
         self.pending_list.append(
             PendingIntEntry(future, deadline, param.can_be_prefix, param.must_be_fresh, validator, implicit_sha256))
 
-    def nack_interest(self, nack_reason: int) -> bool:
+    def nack_interest(self, nack_reason: int, implicit_sha256: enc.BinaryStr = b'') -> bool:
+        # Only the Interests whose full name (including the implicit digest) is nacked are affected
+        remaining = []
         for entry in self.pending_list:
-            entry.future.set_exception(types.InterestNack(nack_reason))
-        return True
+            if bytes(entry.implicit_sha256) == bytes(implicit_sha256):
+                entry.future.set_exception(types.InterestNack(nack_reason))
+            else:
+                remaining.append(entry)
+        self.pending_list = remaining
+        return not remaining
 
     def satisfy(self, data: types.DataTuple, is_prefix: bool) -> bool:
         unsatisfied_entries = []
@@ -598,12 +604,18 @@ class NDNApp:
             del self._pit[prefix]
 
     def _on_nack(self, name: enc.FormalName, nack_reason: int):
+        # Interests with an implicit digest are stored under the name without the digest component
+        if name and enc.Component.get_type(name[-1]) == enc.Component.TYPE_IMPLICIT_SHA256:
+            implicit_sha256 = enc.Component.get_value(name[-1])
+            name = name[:-1]
+        else:
+            implicit_sha256 = b''
         try:
             node = self._pit[name]
         except KeyError:
             node = None
         if node:
-            if node.nack_interest(nack_reason):
+            if node.nack_interest(nack_reason, implicit_sha256):
                 del self._pit[name]
 
     def express(self, name: enc.NonStrictName, validator: Validator,
